@@ -715,12 +715,10 @@ class Unit:
         """self == other"""
         if isinstance(other, Unit):
             if self.qty_cls is other.qty_cls:
-                if self._equiv is None:
-                    assert other._equiv is None
+                if self._equiv is None or other._equiv is None:
+                    # a unit without scale equals itself only
                     return self is other
-                else:
-                    assert other._equiv is not None
-                    return self._equiv == other._equiv
+                return self._equiv == other._equiv
         return False
 
     def _compare(self, other: Any, op: CmpOpT) -> bool:
@@ -961,8 +959,9 @@ class Unit:
             if self.qty_cls is other.qty_cls:
                 if qty_cls.ref_unit is None:
                     return None
-                assert self._equiv is not None
-                assert other._equiv is not None
+                if self._equiv is None or other._equiv is None:
+                    # unit declared without a definition: not convertible
+                    return None
                 return self._equiv / other._equiv
         raise TypeError(f"Can't compare a unit to a '{type(other)}'.")
 
